@@ -39,9 +39,9 @@ theorem put_heap (cfg : Cfg) (hk : cfg.aperture = false) (a : AS) (r j : Nat) (h
   · rename_i h; simp [h, hnb] at hb
   · rename_i h; unfold HS.put; simp [h]
   · rename_i nid h
-    split
-    · rename_i hl; simp [h, hl, hnb] at hb
-    · simp [hk]
+    by_cases hl : putLegal a.hs nid j = true
+    · simp [hk, putDraw, hl]
+    · simp [h, hk, hl, hnb] at hb
 
 theorem join_heap (cfg : Cfg) (hk : cfg.aperture = false) (a : AS) (ep : Nat) :
     (applyNotif (sub cfg) a (.join ep)).hs = a.hs.join ep := by
